@@ -81,6 +81,23 @@ func fineVerify(name string) *Scenario {
 	return s
 }
 
+// fineFailover: B wins the election after A's graceful stop; the window starts when B's
+// winning Create is answered, so that late / duplicated watch notifications about A's
+// record (coarse events, available as alternatives inside the window) interleave with
+// becomeLeader at the level of single atomic operations.
+func fineFailover(name string) *Scenario {
+	s := scnFailoverDel(name, K1, "A", "B")
+	s.FineAt = "create-wins:B"
+	s.FinePts = 500
+	s.MaxSteps = 3000
+	s.MoveScript = false
+	s.SplitApply = false
+	s.RandMenu = nil
+	s.DelayMenu = nil
+	s.AllowDup = true
+	return s
+}
+
 func finePlan(prop, tier string) []PlanItem {
 	p := 1
 	if tier == "thorough" {
@@ -106,6 +123,12 @@ func finePlan(prop, tier string) []PlanItem {
 			PlanItem{fineDemote("fine/stop-vs-demotion", Item{Do: "stop"}), p},
 			PlanItem{fineGraceStop("fine/stop-vs-grace-expiry", Item{Do: "stop"}), p},
 			PlanItem{fineGraceStop("fine/stopctx-vs-grace-expiry", Item{Do: "stopctx", DeleteKey: true}), p})
+	case "C07":
+		items = append(items, PlanItem{fineFailover("fine/failover-watch-vs-becomeLeader"), p + 1})
+		late := fineFailover("fine/failover-late-watch-vs-becomeLeader")
+		late.HoldWatch = true
+		late.Horizon += 600 * ms
+		items = append(items, PlanItem{late, p + 1})
 	case "C08", "C19":
 		items = append(items,
 			PlanItem{fineDemote("fine/validateOrDemote-vs-demotion", Item{Do: "validateOrDemote"}), p},
